@@ -263,7 +263,9 @@ def corpus_validate(ctx, scripts, name, prop=None):
         if o is None or o["status"]["k"] not in ("done", "failed"):
             ctx.skip("no outcome within fuel")
             continue
-        if o["status"]["k"] == "failed" and o["status"]["diag"]["kind"] == "IntOverflow":
+        if o["status"]["k"] == "failed" and o["status"]["diag"]["kind"] == "IntOverflow" \
+                and not (o["status"]["diag"]["msg"][3]["s"] in ("/", "%")
+                         and o["status"]["diag"]["msg"][5]["n"] == 0):
             # the evaluator model's integers are narrower than the implementation's
             ctx.skip("overflow of the model's 31-bit range (covered by C06)")
             continue
@@ -284,6 +286,18 @@ def corpus_validate(ctx, scripts, name, prop=None):
                                              "stderr": se.decode(errors="replace"), "exit": code},
                                   "crash": sv.crashed(se, code)}, prop=prop)
     return n
+
+
+def random_scripts(seed, n, layout=True, **kw):
+    """n seeded random programs (lib/randprog.py), rendered under a seeded layout."""
+    import randprog
+    import render as R
+    out = []
+    for i in range(n):
+        body = randprog.program(seed * 1000003 + i, **kw)
+        text, _, _ = R.render(body, (seed * 7919 + i) if layout else None)
+        out.append(("random#%d/%d" % (seed, i), text))
+    return out
 
 
 def repo_test_scripts():
@@ -519,7 +533,27 @@ def c17(ctx):
     corpus_validate(ctx, scripts, "c17tests")
 
 
+def c01(ctx):
+    ctx.rule = ("feature composition: 12 outer constructs x %s inner constructs x 23 payloads over a shared "
+                "environment (int, list, object with a method, non-ASCII string, counter closure), environment "
+                "printed at the end%s; the repository's 336 test scripts, the documentation examples and %d seeded "
+                "random programs (up to 30-40 statements, depth 4-5) executed in the specification on the real "
+                "parser's tree and compared with the real run; non-trivial = every program (each composes at "
+                "least two constructs); distinct = distinct parameter tuples / script texts"
+                % ("6" if ctx.quick else "11", "" if ctx.quick else "; depth 3; pairs of payloads in one construct",
+                   300 if ctx.quick else 3000))
+    out = ctx.run_model("MC_C01", "C01ParamsQuick" if ctx.quick else "C01ParamsThorough",
+                        invariants=["EscapeWellFormed"],
+                        props=FRAME_PROPS + ["BuildFresh", "FreshPerEntry", "ShadowFrame"], max_steps=4000)
+    ctx.replay(out, "c01", seeds=(None, ctx.seed) if ctx.quick else (None, ctx.seed, ctx.seed + 1))
+    corpus_validate(ctx, repo_test_scripts(), "c01tests")
+    corpus_validate(ctx, doc_examples(), "c01docs")
+    corpus_validate(ctx, random_scripts(ctx.seed, 300 if ctx.quick else 3000,
+                                        max_stmts=30 if ctx.quick else 40), "c01random")
+
+
 REGISTRY = {
+    "C01": c01,
     "C17": c17,
     "C13": c13,
     "C14": c14,
